@@ -333,21 +333,29 @@ def run(chk, only=None):
             cname = ":".join(f"{k}={v}" for k, v in case.items())
             with Ctx(chk.seed) as ctx:
                 env = Env(ctx)
-                try:
-                    prs = pairs_for(case, env)
-                except Exception as e:  # noqa
-                    chk.obligations += 1
-                    chk.report(f"raise:{cname}", f"{cname}: raises {type(e).__name__}: {str(e)[:120]}", "case", dict(case=case))
-                    continue
+                # under the explorer: any test on the scale ratios, the couplings or the operator entries inside apply_pdf is a path
+                # (e.g. a shortcut for xiR == 1 or xiF == 1), explored with the flipped side decided by the solver
+                ex = explore.Explorer(ctx, max_paths=16 if q else 64, timeout_ms=5000)
+                paths = ex.run(lambda case=case, env=env: pairs_for(case, env))
+                chk.paths += len(paths)
+                if ex.bound_hit:
+                    chk.inconclusive_note(f"{cname}: path bound hit")
+                for p in paths:
+                    ctx.assign = dict(p.assign)  # replays fall back to this path's witness point
+                    if p.kind == "exc":
+                        chk.obligations += 1
+                        chk.report(f"raise:{cname}", f"{cname}: raises {type(p.value).__name__}: {str(p.value)[:120]}", "case",
+                                   dict(case=case, values={n: float(v) for n, v in p.assign.items() if n in env.names}))
+                        continue
 
-                def rp_for(lab, ctx=ctx, case=case, env=env):
-                    def rp(model):
-                        asg = explore.model_to_assign(ctx, model)
-                        return "case", dict(case=case, values={n: float(asg.get(n, ctx.assign.get(n, 1))) for n in env.names}, label=lab)
-                    return rp
+                    def rp_for(lab, ctx=ctx, case=case, env=env):
+                        def rp(model):
+                            asg = explore.model_to_assign(ctx, model)
+                            return "case", dict(case=case, values={n: float(asg.get(n, ctx.assign.get(n, 1))) for n in env.names}, label=lab)
+                        return rp
 
-                harness.prove_pairs(chk, cname, prs, ctx.facts(), rp_for, lambda lab: f"apply_pdf:{lab.split('[')[0][:40]}",
-                                    sample={"case": case, "claims": [l for l, _, _ in prs][:6]})
+                    harness.prove_pairs(chk, cname, p.value, ctx.facts() + p.pc, rp_for, lambda lab: f"apply_pdf:{lab.split('[')[0][:40]}",
+                                        sample={"case": case, "claims": [l for l, _, _ in p.value][:6], "path_condition": [str(c)[:80] for c in p.pc[:2]]})
         with Ctx(chk.seed) as ctx:
             env = Env(ctx)
             prs = pairs_for(dict(exs=False, norders=3, missing=[], linear=False), env)
